@@ -5,7 +5,10 @@ Tie (DESIGN.md §3 C02):
       vs the REAL `ResultTypesGenerator.get_operation_as_str()` for every operation of seeded random
       (schema, operations, fragments) documents, processed in `add_operation` order with the in-place
       `__typename` marks threaded: related set, sorted order, the printed document (parsed back with
-      graphql-core and reduced to the model's document IR), the generator state, the trigger flags;
+      graphql-core and reduced to the model's document IR), the generator state, the trigger flags; three document
+      generators: random schemas (one fresh fragment per spread), the family of overlapping interfaces, and SHARED
+      fragment graphs (`gen_graph_case`: spreads pick from a pool, so one fragment is inherited / unpacked / dropped at
+      different positions and reached along several paths; the shapes reached are counted as `…:graph: …`);
   (b) embedding model `Ariadne.Embed.embed` + `Spec/PyStr.lean` vs the REAL
       `ClientGenerator._generate_operation_str_assign` -> `ast_to_str(module, multiline_strings=True)` ->
       `ast.parse` of the emitted module (and `ExtractOperationsPlugin._get_operations_module/_module_to_str`),
@@ -172,6 +175,47 @@ def reachable(sel: List[Dict[str, Any]], frags: Dict[str, Dict[str, Any]]) -> Li
         seen.append(n)
         todo += direct_spreads(frags[n]["sel"])
     return seen
+
+
+def spread_occurrences(sel: List[Dict[str, Any]], frags: Dict[str, Dict[str, Any]]) -> Dict[str, int]:
+    """how many spreads of each fragment are written in the operation and in the fragments reachable from it"""
+    occ: Dict[str, int] = {}
+    for n in direct_spreads(sel):
+        occ[n] = occ.get(n, 0) + 1
+    for r in reachable(sel, frags):
+        for n in direct_spreads(frags[r]["sel"]):
+            occ[n] = occ.get(n, 0) + 1
+    return occ
+
+
+def walked_from(mixins: List[str], frags: Dict[str, Dict[str, Any]]) -> set:
+    """names the loop of `_get_all_related_fragments` meets below the inherited fragments"""
+    out: set = set()
+    for m in mixins:
+        if m in frags:
+            out |= set(reachable(frags[m]["sel"], frags))
+    return out
+
+
+def related_visited_once(mixins: List[str], unpacked: List[str], frags: Dict[str, Dict[str, Any]]) -> set:
+    """COVERAGE MEASURE only (never compared with the implementation): the related set a closure walk would compute if
+    it treated every name the generator registered (inherited or unpacked) as already visited.  Where it differs from
+    the real related set, the input distinguishes "registered" from "walked"."""
+    names = set(mixins) | set(unpacked)
+
+    def walk(sel: List[Dict[str, Any]]) -> None:
+        for s in sel:
+            if s["k"] == "spread":
+                if s["name"] not in names and s["name"] in frags:
+                    names.add(s["name"])
+                    walk(frags[s["name"]]["sel"])
+            else:
+                walk(s.get("sel", []))
+
+    for m in mixins:
+        if m in frags:
+            walk(frags[m]["sel"])
+    return names
 
 
 def plain(node: Any) -> Any:
@@ -458,6 +502,24 @@ def model_lines(obs: Dict[str, Any]) -> Tuple[List[Dict[str, Any]], List[Dict[st
     return lines, defs
 
 
+def graph_shape(op_sel: List[Dict[str, Any]], frs: Dict[str, Dict[str, Any]], impl: Dict[str, Any], dropped: bool, res: Result, what: str) -> None:
+    """shape of the fragment GRAPH of one operation (measured, see gen_graph_case): sharing, and the closure walk
+    re-entering fragments the generator registered somewhere else"""
+    related = set(impl["related"])
+    occ = spread_occurrences(op_sel, frs)
+    if any(v > 1 for v in occ.values()):
+        res.count(f"{what}:graph: a fragment is spread at >= 2 places reachable from the operation")
+    walked = walked_from(impl["mixins"], frs)
+    if set(impl["unpacked"]) & walked:
+        res.count(f"{what}:graph: a fragment is unpacked at one position and reached through an inherited fragment at another")
+    if set(impl["mixins"]) & set(impl["unpacked"]):
+        res.count(f"{what}:graph: a fragment is both inherited and unpacked")
+    if related_visited_once(impl["mixins"], impl["unpacked"], frs) != related:
+        res.count(f"{what}:graph: the closure walk must re-enter a fragment the generator already registered (a walk that visits each registered name once loses a fragment)")
+    if dropped is False and any(not set(direct_spreads(frs[u]["sel"])) <= set(impl["mixins"]) | set(impl["unpacked"]) for u in impl["unpacked"] if u in frs):
+        res.count(f"{what}:graph: a spread dropped where its fragment was unpacked is supplied by the closure walk (not in the trigger)")
+
+
 def compare_sent_doc(case_label: Any, d: Dict[str, Any], marks_in: List[int], model: Dict[str, Any], frag_wires: Dict[str, Any],
                      res: Result) -> None:
     """correspondence (a) for one operation"""
@@ -531,6 +593,7 @@ def compare_sent_doc(case_label: Any, d: Dict[str, Any], marks_in: List[int], mo
     stale = [m for m in impl["marks"] if m > 0 and any(x["k"] == "field" and x["name"] == TYPENAME for x in by_sid.get(m, []))]
     if stale or any(m <= 0 for m in impl["marks"]):
         res.mismatches.append(Mismatch("sentDoc.marks-fresh", inp, {"marks": impl["marks"], "stale": stale}, "marks only on selection sets without __typename"))
+    graph_shape(op_sel, frs, impl, py_dropped, res, "sentdoc")
     res.count("sentdoc:related=%s" % min(len(related), 4))
     res.count("sentdoc:with automatic __typename" if state_impl["marks"] or marks_in else "sentdoc:no automatic __typename")
     if py_dropped != (set(reach) - related != set()) and py_sound:
@@ -776,6 +839,194 @@ def gen_family_cases(rng: random.Random, n: int) -> List[Dict[str, Any]]:
     i = 0
     while len(out) < n and i < 30 * n + 30:
         c = gen_family_case(rng, i)
+        i += 1
+        if c:
+            out.append(c)
+    return out
+
+
+GRAPH_SDL = """type Query {
+  node: Node
+  named: Named
+  search: [SR!]
+  me: User
+  bot: Bot
+  doc: Doc
+  shelf: Shelf
+  echoStr(s: String, ss: [String!]): String
+}
+
+interface Node {
+  id: ID!
+}
+
+interface Named {
+  name: String
+}
+
+type User implements Node & Named {
+  id: ID!
+  name: String
+  friend: Node
+  pet: Named
+  docs: [Doc!]
+}
+
+type Bot implements Node & Named {
+  id: ID!
+  name: String
+  owner: User
+}
+
+type Doc implements Node {
+  id: ID!
+  title: String
+  author: User
+  refs: [Node!]
+}
+
+type Shelf {
+  id: ID!
+  label: String
+  items: [Node!]!
+  top: Doc
+  hits: [SR!]
+}
+
+union SR = User | Bot | Doc
+"""
+GRAPH_SCALARS = {"Node": ["id"], "Named": ["name"], "User": ["id", "name"], "Bot": ["id", "name"], "Doc": ["id", "title"], "Shelf": ["id", "label"], "SR": []}
+GRAPH_MEMBERS = {"Node": ["User", "Bot", "Doc"], "Named": ["User", "Bot"], "SR": ["User", "Bot", "Doc"], "User": ["User"], "Bot": ["Bot"], "Doc": ["Doc"],
+                 "Shelf": ["Shelf"]}
+GRAPH_IFACES = {"User": ["Node", "Named"], "Bot": ["Node", "Named"], "Doc": ["Node"]}
+GRAPH_COMPOSITE = {"User": [("friend", "Node"), ("pet", "Named"), ("docs", "Doc")], "Bot": [("owner", "User")], "Doc": [("author", "User"), ("refs", "Node")],
+                   "Shelf": [("items", "Node"), ("top", "Doc"), ("hits", "SR")]}
+GRAPH_ROOTS = [("node", "Node"), ("named", "Named"), ("search", "SR"), ("me", "User"), ("bot", "Bot"), ("doc", "Doc"), ("shelf", "Shelf")]
+
+
+def gen_graph_case(rng: random.Random, idx: int, plant: float = 0.5) -> Optional[Dict[str, Any]]:
+    """SHARED fragment graphs: a pool of fragments is written first (a DAG: a fragment spreads earlier ones), then every
+    spread - in operations, in fragments, inside inline fragments, under nested fields - PICKS from the pool by type
+    compatibility.  So one fragment is spread at several positions of different kinds (its own type: inherited; a
+    concrete member of its interface/union: unpacked, inline fragments on sibling types skipped; an overlapping
+    interface: dropped), within one operation and across operations, and is reached along several paths (diamonds).
+    The other generators mint a fresh fragment per spread and never produce this.  With probability `plant` the first
+    operation is given two paths to one fragment on purpose (see below); everything around it stays random."""
+    pool: List[Tuple[str, str]] = []  # (name, on)
+    texts: List[str] = []
+    used: List[str] = []  # fragments already spread in the definition being written, and in the ones before it
+
+    reserved: set = set()  # not picked by random spreads while the planted operation is written
+
+    def compatible(t: str) -> List[str]:
+        return [n for n, on in pool if n not in reserved and set(GRAPH_MEMBERS[on]) & set(GRAPH_MEMBERS[t])]
+
+    def body(t: str, depth: int, p_spread: float) -> str:
+        parts: List[str] = []
+        sc = GRAPH_SCALARS[t]
+        if sc:
+            parts += rng.sample(sc, rng.randint(0 if depth < 2 else 1, len(sc)))
+        if rng.random() < 0.1:
+            parts.insert(rng.randint(0, len(parts)), "__typename")
+        for _ in range(2):
+            c = compatible(t)
+            if c and rng.random() < p_spread:
+                again = [n for n in c if n in used]
+                pick = rng.choice(again) if again and rng.random() < 0.6 else rng.choice(c)
+                used.append(pick)
+                s = "..." + pick
+                if s not in parts:
+                    parts.append(s)
+            p_spread *= 0.4
+        if len(GRAPH_MEMBERS[t]) > 1:
+            for m in rng.sample(GRAPH_MEMBERS[t], rng.randint(0, 2)):
+                parts.append(f"... on {m} {{ {body(m, depth - 1, 0.6)} }}")
+        elif t in GRAPH_IFACES and rng.random() < 0.08:
+            i = rng.choice(GRAPH_IFACES[t])
+            parts.append(f"... on {i} {{ {body(i, 0, 0.5)} }}")
+        if depth > 0:
+            for f, ft in GRAPH_COMPOSITE.get(t, []):
+                if rng.random() < 0.3:
+                    parts.append(f"{f} {{ {body(ft, depth - 1, 0.6)} }}")
+        if not parts:
+            parts.append(rng.choice(sc) if sc else "__typename")
+        rng.shuffle(parts)
+        return " ".join(parts)
+
+    def add_fragment(on: str, text: str) -> str:
+        name = f"{rng.choice(['G', 'Piece', 'shared'])}{len(pool)}"
+        texts.append(f"fragment {name} on {on} {{ {text} }}")
+        pool.append((name, on))
+        return name
+
+    def scalars(t: str) -> str:
+        return " ".join(rng.sample(GRAPH_SCALARS[t], rng.randint(1, len(GRAPH_SCALARS[t])))) if GRAPH_SCALARS[t] else "__typename"
+
+    types = ["Node", "Node", "Named", "User", "User", "Bot", "Doc", "Doc", "Shelf", "SR"]
+    root_of = {t: f for f, t in GRAPH_ROOTS}
+    planted: Dict[str, List[str]] = {}  # root field -> spreads the first operation must carry there
+    s_name = None
+    if rng.random() < plant:
+        # TWO PATHS to one fragment U: registered only in part where it is unpacked (a spread of S inside it is not
+        # followed there), and walked in full below an inherited fragment W
+        if rng.random() < 0.6:
+            # U on an abstract type, `... on M1 { ...S }` inside; spread at a position of the sibling member M2
+            a = rng.choice(["Node", "Named", "SR"])
+            m1, m2 = rng.sample(GRAPH_MEMBERS[a], 2)
+            s_name = add_fragment(m1, scalars(m1))
+            u_name = add_fragment(a, " ".join(rng.sample([scalars(a), f"... on {m1} {{ {rng.choice(['', scalars(m1) + ' '])}...{s_name} }}"], 2)))
+            planted.setdefault(root_of[m2], []).append(u_name)
+        else:
+            # U on Node with an inline fragment (unpacked at a Node position), `...S` with S on the overlapping interface
+            s_name = add_fragment("Named", "name")
+            m = "Doc" if rng.random() < 0.8 else rng.choice(GRAPH_MEMBERS["Node"])  # a member class of a type inside Named would register S
+            u_name = add_fragment("Node", " ".join(rng.sample(["id", f"...{s_name}", f"... on {m} {{ {scalars(m)} }}"], 3)))
+            a = "Node"
+            planted.setdefault("node", []).append(u_name)
+        holders = [(t, f) for t, fs in GRAPH_COMPOSITE.items() for f, ft in fs if set(GRAPH_MEMBERS[ft]) & set(GRAPH_MEMBERS[a])]
+        t, f = rng.choice(holders)
+        for _ in range(rng.randint(0, 2)):
+            on = rng.choice(types)
+            add_fragment(on, body(on, rng.choice([0, 1]), 0.55))
+        w_name = add_fragment(t, " ".join(rng.sample([scalars(t), f"{f} {{ {rng.choice(['', 'id '] if f != 'pet' else ['', 'name '])}...{u_name} }}"], 2)))
+        planted.setdefault(root_of[t], []).append(w_name)
+    for k in range(rng.randint(1 if planted else 2, 4 if planted else 6)):
+        on = rng.choice(types)
+        add_fragment(on, body(on, rng.choice([0, 1, 1, 2]), 0.55))
+    ops = []
+    for k in range(rng.randint(1, 3)):
+        mine = planted if k == 0 else {}
+        reserved = {s_name} if mine and rng.random() < 0.8 else set()
+        roots = [r for r in GRAPH_ROOTS if r[0] in mine] + rng.sample([r for r in GRAPH_ROOTS if r[0] not in mine], rng.randint(0 if mine else 1, 2))
+        rng.shuffle(roots)
+        sel = []
+        for f, t in roots:
+            parts = [f"...{n}" for n in mine.get(f, [])]
+            if not parts or rng.random() < 0.5:
+                parts.append(body(t, rng.choice([1, 2]), 0.9 if not parts else 0.3))
+            rng.shuffle(parts)
+            sel.append(f"{f} {{ {' '.join(parts)} }}")
+        if rng.random() < 0.2:
+            sel.append('e1: echoStr(s: "lit # 1")')
+        ops.append(f"query Gr{k} {{ {' '.join(sel)} }}")
+    try:
+        from graphql import NoUnusedFragmentsRule, build_schema, parse, print_ast, specified_rules, validate
+
+        doc = parse("\n".join(ops + texts))
+        if validate(build_schema(GRAPH_SDL), doc, [r for r in specified_rules if r is not NoUnusedFragmentsRule]):
+            return None
+        queries = print_ast(doc) + "\n"
+    except Exception:  # noqa: BLE001
+        return None
+    return {"label": f"graph-{idx}", "sdl": GRAPH_SDL, "queries": queries, "config": {},
+            "calls": [{"op": f"Gr{k}", "vars": {}, "seed": idx} for k in range(len(ops))], "n_ops": len(ops), "n_frags": len(texts)}
+
+
+def gen_graph_cases(rng: random.Random, n: int) -> List[Dict[str, Any]]:
+    out: List[Dict[str, Any]] = []
+    i = 0
+    while len(out) < n and i < 30 * n + 30:
+        c = gen_graph_case(rng, i)
         i += 1
         if c:
             out.append(c)
@@ -1126,6 +1377,12 @@ def run_e2e_cases(ctx: Ctx, cases: List[Dict[str, Any]], res: Result, st: Option
         if isinstance(obs, dict) and "observer" in obs:
             res.mismatches.append(Mismatch("sentDoc.observer", {"case": case.get("label")}, "observer: " + obs["observer"], None))
         flags, lines, defs = model_flags_of(obs, st)
+        if isinstance(obs, dict) and "defs" in obs and what != "corpus":
+            frs = {f["name"]: strip_sids(f) for f in obs["env"]["fragments"]}
+            for d in obs["defs"]:
+                if d["kind"] == "op" and "related" in d["impl"] and "error" not in d["impl"]:
+                    res.count(f"{what}:operations observed")
+                    graph_shape(strip_sids(d["wire"])["sel"], frs, d["impl"], bool(flags and flags.get(d["name"], {}).get("dropped")), res, what)
         fails = judge_e2e(case, out, flags, res, findings)
         per_case.append(fails)
         res.failures += fails
@@ -1282,7 +1539,7 @@ def run(ctx: Ctx, st: Optional[LeanStatus]) -> Result:
     rng = ctx.sub_rng("sentdoc")
     n = ctx.budget(240, 1400)
     cases = (gen_cases(rng, n // 2, regions=False, mixin_frag=0.03) + gen_cases(rng, n // 3, regions=True, mixin_frag=0.06)
-             + gen_family_cases(rng, n - n // 2 - n // 3))
+             + gen_family_cases(rng, n - n // 2 - n // 3) + gen_graph_cases(rng, n // 3))
     ctx.log(f"sent-document correspondence on {len(cases)} documents")
     run_sentdoc_correspondence(ctx, cases, res, st)
     # (b)+(c) embedding correspondence, reference semantics of CPython strings
@@ -1312,9 +1569,13 @@ def run(ctx: Ctx, st: Optional[LeanStatus]) -> Result:
     for region in TEXT_TRIGGERS:
         for i, c in enumerate(gen_cases(orng, max(1, n // 40), regions=False, literal_region=region, literals=1.0)):
             ocases.append(with_variant(c, extract=i % 2 == 1))
+    for i, c in enumerate(gen_graph_cases(ctx.sub_rng("oracle-graph"), max(16, n // 3))):
+        ocases.append(with_variant(c, extract=i % 3 == 0, is_async=i % 4 != 0))
     ctx.log(f"oracle: {len(ocases)} generated packages driven through the real client")
     run_e2e_cases(ctx, ocases, res, st, "oracle")
-    global _UNKNOWN_ALREADY_FOUND
+    global _UNKNOWN_ALREADY_FOUND, _TIE_CASES, _LAST_ST
+    _LAST_ST = st
+    _TIE_CASES = tie_cases(res.mismatches)
     known = common.load_findings(PROP)
     _UNKNOWN_ALREADY_FOUND = any(common.match_finding(f, known) is None for f in res.failures)
     res.oracle_only += [
@@ -1335,6 +1596,34 @@ def run(ctx: Ctx, st: Optional[LeanStatus]) -> Result:
 
 
 _UNKNOWN_ALREADY_FOUND = False
+_TIE_CASES: List[Dict[str, Any]] = []  # documents on which the sent-document correspondence differed in this run
+_LAST_ST: Optional[LeanStatus] = None
+
+
+def tie_cases(mismatches: List[Mismatch], limit: int = 16) -> List[Dict[str, Any]]:
+    """the inputs on which model and implementation disagreed about the document, as oracle cases (every named operation
+    of the document is called): where the tie broke is where a failing input is most likely to be"""
+    from graphql import OperationDefinitionNode, parse
+
+    out: List[Dict[str, Any]] = []
+    seen = set()
+    for m in mismatches:
+        if m.trigger is not None or not isinstance(m.input, dict) or not (m.observation.startswith("sentDoc.") or m.observation.startswith("e2e.")):
+            continue
+        src = m.input.get("case") if isinstance(m.input.get("case"), dict) else m.input
+        if not isinstance(src, dict) or "sdl" not in src or "queries" not in src or src["queries"] in seen:
+            continue
+        seen.add(src["queries"])
+        try:
+            ops = [d.name.value for d in parse(src["queries"]).definitions if isinstance(d, OperationDefinitionNode) and d.name]
+        except Exception:  # noqa: BLE001
+            continue
+        label = src.get("label") or (m.input.get("case") if isinstance(m.input.get("case"), str) else "case")
+        out.append({"label": f"tie-broken:{label}", "sdl": src["sdl"], "queries": src["queries"], "config": {},
+                    "calls": [{"op": o, "vars": {}, "seed": 0} for o in ops]})
+        if len(out) >= limit:
+            break
+    return out
 
 
 def search(ctx: Ctx) -> Result:
@@ -1344,13 +1633,24 @@ def search(ctx: Ctx) -> Result:
         ctx.log("the oracle of this run already holds a concrete failing input outside every finding: no further search")
         return res
     preload()
+    # the finding triggers describe the UNCHANGED code: they come from the model (the compiled driver) whenever it is
+    # available, so that a failure inside a known finding's region is not reported as the failing input
+    st = _LAST_ST if (_LAST_ST is not None and _LAST_ST.driver_ok) else None
+    known = common.load_findings(PROP)
+    if _TIE_CASES:
+        ctx.log(f"search: driving the {len(_TIE_CASES)} document(s) on which the correspondence differed through the real client")
+        sub = Result()
+        run_e2e_cases(ctx, [with_variant(c, extract=i % 2 == 1) for i, c in enumerate(_TIE_CASES)], sub, st, "search-tie")
+        res.merge(sub)
+        if any(common.match_finding(f, known) is None for f in sub.failures):
+            return res
     rng = ctx.sub_rng("search")
     cases = []
     for i, c in enumerate(gen_cases(rng, 120, regions=False)):
         cases.append(with_variant(c, extract=i % 2 == 1))
-    for i, c in enumerate(gen_cases(rng, 30, regions=True, mixin_frag=0.2) + gen_family_cases(rng, 30)):
+    for i, c in enumerate(gen_cases(rng, 30, regions=True, mixin_frag=0.2) + gen_family_cases(rng, 30) + gen_graph_cases(rng, 60)):
         cases.append(with_variant(c, extract=i % 2 == 0))
-    run_e2e_cases(ctx, cases, res, None, "search")
+    run_e2e_cases(ctx, cases, res, st, "search")
     texts = gen_texts(ctx.sub_rng("search-texts"), 4000)
     compare_embed([t for t in texts if text_trigger(t[0]) is None], res, None)
     return res
